@@ -14,9 +14,9 @@ import (
 
 func init() {
 	register(&Check{ID: "C15", Run: runC15, Expl: oblig.Explanation{
-		Text: "Static generation-lifecycle check. (R1) in nextGeneration, once the generation has been published on cg.next, every path to return calls gen.close(); before publication the cg.done arm does too. (R2) close(g.done) (both sites) is guarded by !g.closed, followed by g.closed = true, under Generation.lock; routines++ precedes the go statement, routines-- follows the function's return, close(g.joined) iff the counter reached 0, all under the lock; close() closes done when still open and then waits on joined whenever routines > 0, on every path. (R3) heartbeatLoop and partitionWatcher run their bodies through Start. (R4) a heartbeat error ends the heartbeat function; the watcher ends on a partition-count change and on a non-Kafka error; both end when their context ends. (R5) the heartbeat ticker uses the configured interval and the heartbeat request carries the generation's group, id and member; the back-off is time.After(JoinGroupBackoff) on the default arm only; leaveGroup(memberID) runs on the closed and default arms with the current member id and is skipped for \"\"; run() never returns without reaching the leave logic once a generation was attempted; Next returns only values received from cg.next. Not decided: promptness, interleavings of Start after close (the unaccounted branch is by design), histories of coordinator answers.",
-		Rule: "one obligation per close site, counter operation, exit path and flow fact",
-		Trusted: []string{"go/ssa", "must-lockset of C10"},
+		Text:        "Static generation-lifecycle check. (R1) in nextGeneration, once the generation has been published on cg.next, every path to return calls gen.close(); before publication the cg.done arm does too. (R2) close(g.done) (both sites) is guarded by !g.closed, followed by g.closed = true, under Generation.lock; routines++ precedes the go statement, routines-- follows the function's return, close(g.joined) iff the counter reached 0, all under the lock; close() closes done when still open and then waits on joined whenever routines > 0, on every path. (R3) heartbeatLoop and partitionWatcher run their bodies through Start. (R4) a heartbeat error ends the heartbeat function; the watcher ends on a partition-count change and on a non-Kafka error; both end when their context ends. (R5) the heartbeat ticker uses the configured interval and the heartbeat request carries the generation's group, id and member; the back-off is time.After(JoinGroupBackoff) on the default arm only; leaveGroup(memberID) runs on the closed and default arms with the current member id and is skipped for \"\"; run() never returns without reaching the leave logic once a generation was attempted; Next returns only values received from cg.next. Not decided: promptness, interleavings of Start after close (the unaccounted branch is by design), histories of coordinator answers.",
+		Rule:        "one obligation per close site, counter operation, exit path and flow fact",
+		Trusted:     []string{"go/ssa", "must-lockset of C10"},
 		Assumptions: []string{"functions passed to Start return when their context is cancelled"},
 	}})
 }
@@ -140,7 +140,7 @@ func c15StartClose(p *load.Program, r *oblig.Report) {
 					if iff == nil {
 						continue
 					}
-					cond := iff.Cond
+					cond := an.CondOf(iff)
 					onFalse := pred.Succs[1] == ins.Block()
 					if u, isU := cond.(*ssa.UnOp); isU && u.Op == token.NOT {
 						cond, onFalse = u.X, pred.Succs[0] == ins.Block()
@@ -314,7 +314,7 @@ func c15Functions(p *load.Program, r *oblig.Report) {
 						errVal = ex
 					}
 				}
-				for _, b := range body.Blocks {
+				for _, b := range an.Blocks(body) {
 					_, ci := an.IfCond(b)
 					if ci != nil && ci.X == errVal && an.IsNilConst(ci.Y) && ci.Op == token.NEQ {
 						// the true edge returns (possibly through rundefers) without going back to the select
@@ -346,7 +346,7 @@ func c15Functions(p *load.Program, r *oblig.Report) {
 		} else {
 			// partition count change ⇒ return; non-Kafka error ⇒ return; Kafka error ⇒ continue
 			okChange, okAs := false, false
-			for _, b := range body.Blocks {
+			for _, b := range an.Blocks(body) {
 				iff, ci := an.IfCond(b)
 				if iff == nil {
 					continue
@@ -355,7 +355,7 @@ func c15Functions(p *load.Program, r *oblig.Report) {
 					q := an.PathQuery{Fn: body, Target: func(i ssa.Instruction) bool { _, isSel := i.(*ssa.Select); return isSel }}
 					okChange = q.ReachableFrom(an.Point{B: b.Succs[0], Idx: -1}) == nil
 				}
-				if c, isC := iff.Cond.(*ssa.Call); isC && c.Call.StaticCallee() != nil && c.Call.StaticCallee().Name() == "As" {
+				if c, isC := an.CondOf(iff).(*ssa.Call); isC && c.Call.StaticCallee() != nil && an.RefFuncName(c.Call.StaticCallee()) == "As" {
 					q := an.PathQuery{Fn: body, Target: func(i ssa.Instruction) bool { _, isSel := i.(*ssa.Select); return isSel }}
 					// false edge (not a Kafka error) never reaches the select again
 					okAs = q.ReachableFrom(an.Point{B: b.Succs[1], Idx: -1}) == nil && q.ReachableFrom(an.Point{B: b.Succs[0], Idx: -1}) != nil
@@ -377,7 +377,10 @@ func c15RunLoop(p *load.Program, r *oblig.Report) {
 		return
 	}
 	// back-off: time.After(cg.config.JoinGroupBackoff), exactly one site
-	afters := callsTo(run, func(cc *ssa.CallCommon) bool { f := cc.StaticCallee(); return f != nil && an.ShortFunc(f) == "time.After" })
+	afters := callsTo(run, func(cc *ssa.CallCommon) bool {
+		f := cc.StaticCallee()
+		return f != nil && an.ShortFunc(f) == "time.After"
+	})
 	okAfter := len(afters) == 1 && strings.HasSuffix(argDesc(afters[0].Common().Args[0]), ".JoinGroupBackoff")
 	r.Check(okAfter, rule, "ConsumerGroup.run → failed joins are retried after the configured back-off", p.Pos(run.Pos()), "backoff = time.After(cg.config.JoinGroupBackoff)", fmt.Sprintf("sites=%d", len(afters)))
 	// leaveGroup sites: 2, each with the member id returned by the last nextGeneration
